@@ -618,7 +618,17 @@ def emits_comment_first(idx, fi: FuncInfo, helper: str, depth: int = 0) -> Tuple
         from ..inline import inline_fragments
         from ..strctx import ANCHOR_HELPERS
         fi2 = inline_fragments(idx, fi, keep=ANCHOR_HELPERS | {helper})
-        if fi2 is not fi and helper_calls(fi2):
+
+        def delegates(f: FuncInfo) -> bool:
+            # a return that hands the model on to another function of the package: that function decides about the comment
+            for r in walk_no_nested(f.node):
+                if isinstance(r, ast.Return) and isinstance(r.value, ast.Call) and isinstance(r.value.func, ast.Name) \
+                        and any(norm(a) == model for a in r.value.args):
+                    sym = idx.resolve(f.module, r.value.func.id)
+                    if sym is not None and sym.kind == 'func':
+                        return True
+            return False
+        if fi2 is not fi and helper_calls(fi2) and not delegates(fi2):
             fi = fi2
     body = fi.node.body
     calls = helper_calls(fi)
